@@ -121,6 +121,7 @@ type traced struct {
 	inputs *Inputs
 	cases  []RenderCase
 	mut    *Diff // what the fresh render changed in the shared state (nil: nothing)
+	op     Op
 }
 
 // RandomHistories is M3: n generated bundles, spread over the configurations.
@@ -255,7 +256,7 @@ func runPlan(ctx *core.Ctx, pl *plan, sample bool) []traced {
 	for i, c := range pl.cases {
 		q := *pl.prog
 		q.Entry, q.Data = c.Entry, c.Data
-		out = append(out, traced{cfg, &q, fresh[pl.ops[i].Key()], in, pl.cases, muts[pl.ops[i].Key()]})
+		out = append(out, traced{cfg, &q, fresh[pl.ops[i].Key()], in, pl.cases, muts[pl.ops[i].Key()], pl.ops[i]})
 	}
 	inst, err := NewInstance(in)
 	if err != nil {
@@ -359,10 +360,11 @@ func validateFresh(ctx *core.Ctx, all []traced) {
 			sig.Feature = "shared-state-mutated:" + t.mut.Own
 			why = fmt.Sprintf("; the render changed %s: %s -> %s", t.mut.Path, t.mut.Before, t.mut.After)
 		}
-		ctx.Violation(sig,
-			fmt.Sprintf("configuration %s, %s, fresh bundle: real err=%v out=%q (%s); spec (%s): status=%s out=%q%s", t.cfg.Name, t.prog.Entry, t.obs.Err, t.obs.Out, t.obs.ErrText, via, status, out, why),
-			map[string]interface{}{"kind": "fresh-render", "cfg": t.cfg, "files": t.inputs.Files, "entry": t.prog.Entry, "data": t.prog.Data,
-				"observed": t.obs, "specStatus": status, "specOut": out, "stateDiff": t.mut})
+		what := fmt.Sprintf("configuration %s, %s, fresh bundle: real err=%v out=%q (%s); spec (%s): status=%s out=%q%s", t.cfg.Name, t.prog.Entry, t.obs.Err, t.obs.Out, t.obs.ErrText, via, status, out, why)
+		// replayable as a history of one step with the specification's expectation
+		ctx.Violation(sig, what,
+			RandomReplay{HistoryReplay{Kind: "history", Family: "history", Cfg: t.cfg, Inputs: t.inputs,
+				History: []Step{{Op: t.op, St: status, Out: out}}, FailedAt: 1, What: what, Observed: t.obs, Diff: t.mut}, t.cases})
 	}
 	for i := range all {
 		if e, isBad := bad[i]; isBad {
